@@ -2760,9 +2760,17 @@ void SoPlexBase<R>::clearLPReal()
    _hasBasis = false;
    _rationalLUSolver.clear();
 
+   // clearing resets the objective sense and offset stored in the LP; keep them consistent with the parameters
+   _realLP->changeSense(intParam(SoPlexBase<R>::OBJSENSE) == SoPlexBase<R>::OBJSENSE_MAXIMIZE ?
+                        SPxLPBase<R>::MAXIMIZE : SPxLPBase<R>::MINIMIZE);
+   _realLP->changeObjOffset(realParam(SoPlexBase<R>::OBJ_OFFSET));
+
    if(intParam(SoPlexBase<R>::SYNCMODE) == SYNCMODE_AUTO)
    {
       _rationalLP->clear();
+      _rationalLP->changeSense(intParam(SoPlexBase<R>::OBJSENSE) == SoPlexBase<R>::OBJSENSE_MAXIMIZE ?
+                               SPxLPRational::MAXIMIZE : SPxLPRational::MINIMIZE);
+      _rationalLP->changeObjOffset(realParam(SoPlexBase<R>::OBJ_OFFSET));
       _rowTypes.clear();
       _colTypes.clear();
    }
@@ -3690,9 +3698,17 @@ void SoPlexBase<R>::clearLPRational()
    _rowTypes.clear();
    _colTypes.clear();
 
+   // clearing resets the objective sense and offset stored in the LP; keep them consistent with the parameters
+   _rationalLP->changeSense(intParam(SoPlexBase<R>::OBJSENSE) == SoPlexBase<R>::OBJSENSE_MAXIMIZE ?
+                            SPxLPRational::MAXIMIZE : SPxLPRational::MINIMIZE);
+   _rationalLP->changeObjOffset(realParam(SoPlexBase<R>::OBJ_OFFSET));
+
    if(intParam(SoPlexBase<R>::SYNCMODE) == SYNCMODE_AUTO)
    {
       _realLP->clear();
+      _realLP->changeSense(intParam(SoPlexBase<R>::OBJSENSE) == SoPlexBase<R>::OBJSENSE_MAXIMIZE ?
+                           SPxLPBase<R>::MAXIMIZE : SPxLPBase<R>::MINIMIZE);
+      _realLP->changeObjOffset(realParam(SoPlexBase<R>::OBJ_OFFSET));
       _hasBasis = false;
    }
 
